@@ -222,6 +222,11 @@ func (cs *ContractSet) directive(cur **Contract, body, path string, ln int, pkgP
 			s := name
 			slash := strings.LastIndex(s, "/")
 			dot := strings.Index(s[slash+1:], ".")
+			// versioned import paths (gopkg.in/yaml.v3.Marshal): the package name ends at the last
+			// ".vN" element, the function follows it
+			if m := regexp.MustCompile(`^[A-Za-z0-9_-]+\.v[0-9]+\.`).FindString(s[slash+1:]); m != "" {
+				dot = len(m) - 1
+			}
 			if dot < 0 {
 				return fail("extern func needs a qualified name: %s", name)
 			}
